@@ -498,4 +498,61 @@ theorem getCustomNumFmtID_mem {r : Reg} {c : Str} {n : Nat} (h : getCustomNumFmt
     have hp := List.find?_some hf
     exact ⟨nf, List.mem_of_find?_eq_some hf, by simpa using hp, h⟩
 
+/-! ### shape of the stored xf records (groundwork for the read-back of a FOUND xf, which is not proved) -/
+
+/-- shape of the xf records `setCellXfs` writes (and of the template's): all four ids present, apply
+flags of font / fill / border never `false`, alignment / protection stored consistently with their flags -/
+structure XfWell (xf : Xf) : Prop where
+  fontId : xf.fontId.isSome = true
+  fillId : xf.fillId.isSome = true
+  borderId : xf.borderId.isSome = true
+  applyFont : xf.applyFont ≠ some false
+  applyFill : xf.applyFill ≠ some false
+  applyBorder : xf.applyBorder ≠ some false
+  alignNone : xf.applyAlignment = none → xf.alignment = none
+  alignSome : ∀ a, xf.alignment = some a → a ≠ zeroAlign → xf.applyAlignment = some true
+  protNone : xf.applyProtection ≠ some true → xf.protection = none ∧ xf.applyProtection = none
+
+def ShapeOk (r : Reg) : Prop := ∀ xf ∈ r.xfs, XfWell xf
+
+theorem mkXf_well (i n l b : Nat) (t : Style) : XfWell (mkXf i n l b t) := by
+  refine ⟨rfl, rfl, rfl, ?_, ?_, ?_, ?_, ?_, ?_⟩
+  · unfold mkXf; simp only; split <;> simp
+  · unfold mkXf; simp only; split <;> simp
+  · unfold mkXf; simp only; split <;> simp
+  · intro h; simp [mkXf] at h
+  · intro a ha hz
+    unfold mkXf at ha ⊢
+    simp only at ha ⊢
+    cases hq : t.alignment with
+    | none => rw [hq] at ha; simp at ha; exact absurd ha.symm hz
+    | some x => rfl
+  · intro h
+    unfold mkXf at h ⊢
+    simp only at h ⊢
+    cases hq : t.protection with
+    | none => simp
+    | some p => rw [hq] at h; simp at h
+
+theorem shape_init : ShapeOk initReg := by
+  intro xf h
+  simp [initReg, Facts.C17.tplXfs] at h
+  subst h
+  exact ⟨rfl, rfl, rfl, by simp, by simp, by simp, fun _ => rfl, fun a ha => by simp at ha, fun _ => ⟨rfl, rfl⟩⟩
+
+theorem newStyle_shape {r r' : Reg} {s s' : Style} {id : Nat} (w : WF r) (hs : ShapeOk r)
+    (h : newStyle r s = .ok (r', id, s')) : ShapeOk r' := by
+  unfold newStyle at h
+  split at h
+  · simp at h
+  · split at h
+    · simp at h
+    · simp at h; obtain ⟨h1, _, _⟩ := h; subst h1; exact hs
+    · obtain ⟨i, n, l, b, t2, hx, _⟩ := (createStyle_created w h).xf
+      intro xf hxf
+      rw [hx] at hxf
+      rcases List.mem_append.mp hxf with hm | hm
+      · exact hs xf hm
+      · simp at hm; subst hm; exact mkXf_well i n l b t2
+
 end XlModel.Styles
